@@ -118,3 +118,74 @@ func globalWritten(fn *ssa.Function, g *ssa.Global) bool {
 	}
 	return false
 }
+
+// nonNilErrorGlobal: a package-level `var ErrX = errors.New(...)` (or
+// fmt.Errorf) that is never assigned holds a non-nil error.
+func (w *World) nonNilErrorGlobal(g *ssa.Global) bool {
+	if w.errGlobals == nil {
+		w.errGlobals = map[*ssa.Global]bool{}
+	}
+	if v, ok := w.errGlobals[g]; ok {
+		return v
+	}
+	w.errGlobals[g] = false
+	if g.Pkg == nil {
+		return false
+	}
+	if _, ok := g.Type().Underlying().(*types.Pointer).Elem().Underlying().(*types.Interface); !ok {
+		return false
+	}
+	// standard library sentinels
+	if g.Pkg.Pkg.Path() == "io" && (g.Name() == "EOF" || g.Name() == "ErrUnexpectedEOF") {
+		w.errGlobals[g] = true
+		return true
+	}
+	p := w.pkgs[g.Pkg.Pkg.Path()]
+	if p == nil || p.TypesInfo == nil {
+		return false
+	}
+	found := false
+	for _, f := range p.Syntax {
+		for _, d := range f.Decls {
+			gd, ok := d.(*ast.GenDecl)
+			if !ok {
+				continue
+			}
+			for _, s := range gd.Specs {
+				vs, ok := s.(*ast.ValueSpec)
+				if !ok {
+					continue
+				}
+				for i, n := range vs.Names {
+					if n.Name != g.Name() || i >= len(vs.Values) {
+						continue
+					}
+					if ce, ok := vs.Values[i].(*ast.CallExpr); ok {
+						if se, ok := ce.Fun.(*ast.SelectorExpr); ok {
+							if id, ok := se.X.(*ast.Ident); ok {
+								if (id.Name == "errors" && se.Sel.Name == "New") || (id.Name == "fmt" && se.Sel.Name == "Errorf") {
+									found = true
+								}
+							}
+						}
+					}
+				}
+			}
+		}
+	}
+	if !found {
+		return false
+	}
+	sp := w.prog.Package(p.Types)
+	if sp == nil {
+		return false
+	}
+	sp.Build()
+	for _, m := range sp.Members {
+		if fn, ok := m.(*ssa.Function); ok && globalWritten(fn, g) {
+			return false
+		}
+	}
+	w.errGlobals[g] = true
+	return true
+}
